@@ -1,4 +1,5 @@
 import Tahoe.Storage.ImmSpaceLemmas
+import Tahoe.Storage.ImmConnLemmas
 /-!
 C28 — storage space reservations are honoured (property theorems only).
 Model: `allocate` / `allocLoop` / `allocatedSize` / `availableSpace` in `Tahoe/Storage/Immutable.lean`
@@ -59,6 +60,40 @@ example :
     let s := (allocate (Server.empty false 10) 0 [0, 1, 2] 40 exRec 100 []).1
     allocatedSize s = 80 ∧ allocatedSize (closeOp s 0).1 = 40 ∧ allocatedSize (abortOp s 1) = 40 ∧
     allocatedSize (advanceOp s 1800) = 0 := by decide
+
+/-- **lost_connection_releases_space**: in every state reachable from an empty server (direct calls,
+    Foolscap allocations on connections, connection losses), losing connection `c` lowers the
+    reservation total by exactly the reservations of the uploads in progress whose handle is
+    registered on `c` (all of them are released, nothing else is), and afterwards no writer of `c`
+    holds a reservation. -/
+theorem lost_connection_releases_space (ro : Bool) (rs : Nat) (ops : List FOp) (ok : ∀ o ∈ ops, FOpOk o)
+    (c : Nat) :
+    let s := frun (Server.empty ro rs) ops
+    allocatedSize (disconnectOp s c) +
+        allocSum (s.incoming.filter (fun e => (widsOfConn s c).contains e.2.1.wid)) = allocatedSize s ∧
+    (∀ e ∈ (disconnectOp s c).incoming, e.2.1.wid ∉ widsOfConn s c) := by
+  intro s
+  obtain ⟨hw, hh⟩ := frun_inv _ (wf_empty ro rs) (wfh_empty ro rs) ops ok
+  have heq := foldl_abort_eq_filter (widsOfConn s c) s hw.incKeys hh.widNodup
+  have hinc : (disconnectOp s c).incoming =
+      s.incoming.filter (fun e => !((widsOfConn s c).contains e.2.1.wid)) := by
+    simp only [disconnectOp]; rw [heq]
+  constructor
+  · have := allocSum_filter_split s.incoming (fun e => (widsOfConn s c).contains e.2.1.wid)
+    simp only [allocatedSize, hinc, allocSum] at this ⊢
+    omega
+  · intro e he
+    rw [hinc] at he
+    simp only [List.mem_filter, Bool.not_eq_true', List.contains_eq_mem, decide_eq_false_iff_not] at he
+    exact he.2
+
+/-- two connections on one storage index: 2×40 reserved by connection 1 (one share then closed),
+    2×10 by connection 2; losing connection 1 releases its remaining 40, connection 2 keeps 20 -/
+example :
+    let s := frun (Server.empty false 10) [.allocConn 1 0 [0, 1] 40 exRec 200 [], .allocConn 2 0 [1, 2, 3] 10 exRec 200 [],
+      .direct (.close 0)]
+    allocatedSize s = 60 ∧ allocatedSize (disconnectOp s 1) = 20 ∧ allocatedSize (disconnectOp s 2) = 40 ∧
+    allocatedSize (disconnectOp (disconnectOp s 1) 2) = 0 := by decide
 
 /-- **readonly_accepts_none** (with the repair fixes/C28-readonly.diff): a read-only server creates
     no BucketWriter and reserves nothing, whatever the requested size (0 included), the disk and the
